@@ -167,10 +167,63 @@ def run(ctx):
         "outcomes": stats["outcomes"],
         "correspondence_mismatches": len(ctx.tie_broken),
     })
+    # lists of objects: foreach over a fixed population of element objects (expanded by Rand/Unroll.v over the elements' fields)
+    from props import tree_common
+    tree_common.extra_stream(
+        ctx, "C04", 2 | 4 | 8,
+        "a foreach body over a list of objects does not hold for every element, an element of a non-random list changed, or the "
+        "outcome contradicts satisfiability",
+        tag="c04o", key="object_list_stream",
+        rule="object trees with 1-2 lists of 2-3 objects; foreach blocks over them relate each element's fields to constants, the "
+             "index, the container's fields and each other; element classes have blocks of their own",
+        olists=True)
+    # random-size lists of objects: views only (public API oracle, no model behind it)
+    r3 = random.Random("C04-objsz-%d" % ctx.seed)
+    ocases = []
+    for _ in range(40 if ctx.quick() else 600):
+        lists = []
+        for _ in range(r3.randint(1, 3)):
+            pop = r3.randint(0, 4)
+            lists.append({"pop": pop, "min": r3.choice([None, None, 0, min(pop, 1), min(pop, 2)]), "foreach": r3.choice([None, 5, 7])})
+        ocases.append({"lists": lists, "calls": 3})
+    oobs = core.run_impl_parallel(ctx, "c04o_impl.py", ocases, nchunks=4)
+    nviews = 0
+    for c, o in zip(ocases, oobs):
+        if o.get("_crash") or "crash" in o:
+            core.add_violation(ctx, "library raised on an object with random-size lists of objects: %s" % str(o)[:300], {"case": c, "observed": str(o)[:1500]})
+            continue
+        for k, rec in enumerate(o["calls"]):
+            if rec["outcome"] != "ok":
+                if rec["outcome"] != "SolveFailure":
+                    core.add_violation(ctx, "call %d on random-size lists of objects ended with %s" % (k, rec["outcome"]), {"case": c, "observed": rec})
+                    break
+                continue
+            bad = None
+            for l, v in zip(c["lists"], rec["views"]):
+                nviews += 1
+                if isinstance(v["iter"], str) or isinstance(v["index"], str) or not (v["len"] == v["size"] == len(v["iter"]) == len(v["index"])) \
+                        or v["iter"] != v["index"]:
+                    bad = "len() %s, size %s, iteration %s, indexing %s disagree" % (v["len"], v["size"], v["iter"], v["index"])
+                elif v["len"] > l["pop"] or (l.get("min") is not None and v["len"] < l["min"]):
+                    bad = "size %d outside [%s, population %d]" % (v["len"], l.get("min"), l["pop"])
+                elif l.get("foreach") and any(e[0] >= l["foreach"] for e in v["iter"]):
+                    bad = "foreach body (a < %d) violated by an exposed element: %s" % (l["foreach"], v["iter"])
+                elif any(e[0] < e[1] for e in v["iter"]):
+                    bad = "an exposed element violates its own class constraint a >= b: %s" % (v["iter"],)
+                if bad:
+                    break
+            if bad:
+                core.add_violation(ctx, "random-size list of objects after call %d: %s" % (k, bad), {"case": c, "observed": rec})
+                break
+    ctx.coverage["object_randsz_views"] = {"cases": len(ocases), "views_checked": nviews,
+                                           "rule": "1-3 random-size lists of 0-4 objects in one object, optional lower bound on the size and foreach "
+                                                   "over the elements; after each of 3 calls len / size / iteration / indexing must agree, lie "
+                                                   "within bounds and population, and the exposed elements must satisfy foreach body and their "
+                                                   "own block (public-API oracle, no model)"}
     ctx.assumptions += [
         "the expansion of foreach / sum / unique / membership over the exposed elements is done by the harness (listgen.ListLits) "
         "and is the specification of 'the list the user sees'; the flat statements are then covered by the C01 theorems",
-        "scalar lists; lists of objects are not generated",
+        "scalar lists of fixed and random size; lists of objects with a fixed population (random-size lists of objects are not generated)",
         "known finding randsz.aggregate_over_hidden (sum / unique / membership over a random-size list count the elements of the "
         "maximum size, not of the solved size)",
     ]
